@@ -76,7 +76,7 @@ func cmdC11(args []string) error {
 		cfgBefore, _ := cfg.JSON()
 		cl := client.NewWithPassword("alice", realm, "pw-alice", cfg, client.DisablePAFXFAST(true))
 		g := 2 + r.Intn(15)
-		long := round%5 == 4       // a longer round across the renewal point of the TGT
+		long := round%4 == 3       // a longer round: it lasts until the renewal point of the TGT (5/6 of its 3 s) has passed
 		destroyMid := *withDestroy // one goroutine destroys the client while the others use it
 		type res struct {
 			Op      string   `json:"op"`
@@ -102,7 +102,8 @@ func cmdC11(args []string) error {
 				defer wg.Done()
 				<-start
 				n := 3 + rr.Intn(4)
-				for j := 0; j < n; j++ {
+				t0 := time.Now()
+				for j := 0; j < n || (long && time.Since(t0) < 3300*time.Millisecond && j < 40); j++ {
 					if destroyMid && i == 0 && j == 1 {
 						x := res{Op: "destroy", Ok: true}
 						x.Panic = catch(func() { cl.Destroy() })
